@@ -327,3 +327,63 @@ def rule_reopen(ctx, R):
                           "%s puts another file at the log path (%s, line %d) and can return without re-opening the writer: the engine keeps appending to the replaced (unlinked) file, so every command logged after the rewrite is missing from the AOF at the next start"
                           % (fn.split("::")[-1], shared.short_callee(f), b.bb_line(i)), b.loc(i), ["bb%d line %d" % (x, b.bb_line(x)) for x in p][-8:])
     R.floor("log_path_replacement_sites", n)
+
+
+# ---- R-AOF-APPENDED-RUNS --------------------------------------------------------------------------
+def rule_appended_runs(ctx, R):
+    """what is in the log took effect: once process_normal_command has appended the command, it
+    is dispatched -- no refusal that does not come from the command's own execution lies between
+    the append and the dispatch.  After the append hook, no bool test other than the comparisons of
+    the command name (a pause / limit / mode gate) leads to an error reply built in
+    process_normal_command itself without a handler having run; such gates belong in front of the
+    append (the refused write would be applied at replay)."""
+    b = ctx.prog.need(PNC)
+    apps = [i for i, t in b.calls() if callee(t) == APPEND or APPEND in ctx.cg.reach([callee(t)]) and callee(t).startswith(SERVER)]
+    if not apps:
+        R.broken.append("no append hook found in process_normal_command"); return
+    after = set()
+    for a in apps:
+        after |= cfg.fwd_strict(b, a) if hasattr(cfg, "fwd_strict") else cfg.fwd(b, [a])
+    errs = {i for i, t in b.calls() if t["def"].endswith("RespFrame::error")}
+    rets = [x for x, bb in enumerate(b.bbs) if bb["t"]["k"] == "return"]
+    n = 0
+    for i, t in b.calls():
+        if i not in after or b.bbs[i]["cleanup"] or (b.locals[t["d"]["l"]] or "") != "bool":
+            continue
+        f = t["f"] or ""
+        if re.search(r"PartialEq|::eq$|::ne$|eq_ignore_ascii_case|is_write_command|starts_with|ends_with|contains|is_empty|is_some|is_none|is_ok|is_err", f):
+            continue
+        n += 1
+        sw = None
+        x = t["t"]; alias = {t["d"]["l"]}; steps = 0
+        while x is not None and x >= 0 and steps < 30:
+            steps += 1
+            for st in b.bbs[x]["s"]:
+                if st["k"] == "=" and not st["l"]["p"] and st["r"]["k"] == "use" and not op_is_const(st["r"]["o"]) and op_place(st["r"]["o"])["l"] in alias and not op_place(st["r"]["o"])["p"]:
+                    alias.add(st["l"]["l"])
+            tt = b.bbs[x]["t"]
+            if tt["k"] == "switch":
+                if not op_is_const(tt["d"]) and op_place(tt["d"])["l"] in alias:
+                    sw = (x, tt)
+                break
+            if tt["k"] in ("goto", "drop", "assert", "falseedge", "falseunwind"):
+                x = tt.get("t")
+            else:
+                break
+        bad = None
+        if sw:
+            # handler calls = calls into the server / storage layer (anything that can execute)
+            handlers = {x for x, tt in b.calls() if x != i and callee(tt).startswith(("network::server::Server::handle_", "storage::", "network::server::Server::process_")) }
+            for tgt in set([v for _, v in sw[1]["ts"]] + [sw[1]["o"]]):
+                # a path from this edge to a return through an error construction with no handler call
+                for e in errs:
+                    p1 = cfg.path_avoiding(b, [tgt], [e], handlers)
+                    if p1 is not None and len(p1) <= 16:
+                        p2 = cfg.path_avoiding(b, [e], rets, handlers)
+                        if p2 is not None:
+                            bad = e
+        R.inst(b.fn, "gate-after-append:%s" % shared.short_callee(f), {"at": b.loc(i), "refuses_without_running_a_handler": bad is not None})
+        if bad is not None:
+            R.finding(b.fn, "gate-after-append:%s" % shared.short_callee(f).split("::")[-1],
+                      "process_normal_command tests %s (line %d) after the command was appended to the AOF and refuses with an error reply (line %d) without running it: every write refused by this gate is already in the log and is applied when the log is replayed" % (shared.short_callee(f), b.bb_line(i), b.bb_line(bad)), b.loc(i))
+    R.inst(b.fn, "gates-after-append", {"bool_tests_after_the_append_other_than_name_comparisons": n})
